@@ -223,32 +223,32 @@ class Collector:
 
 
 def explore_sieve(run, col, exe, limit_log2, budget_s):
-    """Mode 1 (is_prime + pseudoprime search) on every 2^22/2^24 chunk below 2^limit_log2, then
-    mode 2 (find_prime_factor) on the same chunks in ascending order while the budget lasts."""
+    """Priority order: (A) everything (is_prime, find_prime_factor, pseudoprime search) on every n
+    below 2^min(limit,28); (B) is_prime on the rest up to 2^limit; (C) find_prime_factor on the rest,
+    ascending, while the budget lasts.  MODE bits: 1 is_prime, 2 factor, 4 pseudoprime search."""
     t_end = run.elapsed() + budget_s
     hi = 1 << limit_log2
-    step = 1 << (22 if limit_log2 <= 28 else 24)
-    chunks = [(lo, min(lo + step, hi)) for lo in range(0, hi, step)]
-    done = {1: [], 2: []}
+    mid = min(hi, 1 << 28)
+    s1, s2 = 1 << 22, 1 << 24
+    order = [(7, lo, min(lo + s1, mid), 25) for lo in range(0, mid, s1)]
+    order += [(1, lo, min(lo + s2, hi), 40) for lo in range(mid, hi, s2)]
+    order += [(2, lo, min(lo + s2, hi), 120) for lo in range(mid, hi, s2)]
+    chunks = order
+    done = {1: [], 2: [], 4: []}
 
     def job(task):
-        mode, lo, h = task
-        est = 90 if step > (1 << 22) else 20
+        mode, lo, h, est = task
         if min(run.time_left(), t_end - run.elapsed()) < est:
             return None
         r = run_bin(exe, [lo, h, mode], timeout=3600)
         return task, r
 
     res = []
-    if limit_log2 <= 28:
-        order = [(3, lo, h) for lo, h in chunks]
-    else:
-        order = [(1, lo, h) for lo, h in chunks] + [(2, lo, h) for lo, h in chunks]
     for item in core.pmap(job, order):
         if item is None:
             continue
-        (mode, lo, h), r = item
-        for m in (1, 2):
+        (mode, lo, h, est), r = item
+        for m in (1, 2, 4):
             if mode & m:
                 done[m].append((lo, h))
         res.append(r)
@@ -272,8 +272,8 @@ def explore_sieve(run, col, exe, limit_log2, budget_s):
         "sieve_limit_log2": limit_log2,
         "sieve_is_prime_exhaustive_below": prefix(done[1]),
         "sieve_find_prime_factor_exhaustive_below": prefix(done[2]),
-        "sieve_chunks_is_prime": len(done[1]), "sieve_chunks_factor": len(done[2]),
-        "sieve_chunks_total": len(chunks),
+        "sieve_pseudoprime_search_exhaustive_below": prefix(done[4]),
+        "sieve_tasks_done": len(res), "sieve_tasks_planned": len(chunks),
         "sieve_is_prime_evals": tot("evals_prime") if st else 0,
         "sieve_factor_evals": tot("evals_factor") if st else 0,
         "sieve_primes_seen": sum(s["primes"] for s in st if s["fmode"] & 1),
